@@ -88,6 +88,12 @@ def argn_family(rng, n):
     # 19-digit names that were not reserved)
     out.append("Select(ds, lambda arg_999999999999999999: Select(Select(arg_999999999999999999.jets, lambda x: x.pt), "
                "lambda y: y + arg_1000000000000000000))")
+    # ... and a number of exactly the longest length Python converts (wave-13 review of 4bddb63: the counter, one more, could
+    # not be formatted any longer and every later query of the process failed)
+    import sys as _sys
+    lim = getattr(_sys, "get_int_max_str_digits", lambda: 0)()
+    if lim:
+        out.append(f"Select(Select(ds, lambda e: e.met + arg_{'9' * lim}), lambda x: x + 1)")
     tries = 0
     while len(out) < n and tries < 20 * n:
         tries += 1
